@@ -17,7 +17,7 @@ MANIFEST = {
     'text': 'Real SyncObj objects with autoTick=True (1 or 3 nodes, real tick threads, real clock) exchange pickled messages through thread-safe inboxes drained by each node\'s own tick thread. Generated plans start N application threads that '
             'call replicated methods concurrently in four modes with generated micro-sleeps (switch interval 1 us). Oracle after joining all threads and quiescing: every command id occurs at most once in the applied sequence of every replica and the '
             'replicas agree; a call reported SUCCESS occurs exactly once; QUEUE_FULL/other definite failures never occur in it; each callback fired at most once; each sync call returned (its own id, its position in the sequence) '
-            'or raised SyncObjException with a FAIL_REASON or \'Timeout\' (a timeout is an open outcome, never a violation).',
+            'or raised SyncObjException with a FAIL_REASON or \'Timeout\' (a timeout is an open outcome, never a violation); once all queues and pending-call tables are empty, every callback-mode call has had its callback.',
     'note': 'The schedule is perturbed by generated data but not owned: a green run says little about rare races and a failure may not replay; this is the weakest check of the set (see DESIGN.md section 4).',
 }
 LEVEL = 'exploration'
@@ -222,6 +222,18 @@ def run_case(case):
                 elif outcome[0] == 'fail' and outcome[1] in (FAIL_REASON.QUEUE_FULL, FAIL_REASON.MISSING_LEADER, FAIL_REASON.NOT_LEADER, FAIL_REASON.REQUEST_DENIED, FAIL_REASON.DISCARDED):
                     if cid in pos:
                         viol = ('applied-after-definite-failure', 'cid %d reported failure %r but was applied at position %d' % (cid, outcome[1], pos[cid] + 1))
+                        break
+        if viol is None:
+            # nothing is lost in this harness (no message loss, no node stops): once every queue and every table of
+            # pending calls is empty, a callback-mode call whose callback never fired has been dropped silently
+            def idle(o):
+                return (len(o._SyncObj__commandsQueue._FastQueue__queue) == 0 and not o._SyncObj__commandsWaitingReply and
+                        not any(o._SyncObj__commandsWaitingCommit.values()))
+            if all(idle(o) for o in objs) and sum(1 for o in objs if o._isLeader()) == 1:
+                for rec in records:
+                    if rec['mode'] == 'callback' and not rec['cbs']:
+                        viol = ('call-dropped-silently', 'cid %d (callback mode, thread %d): no callback although all queues and pending tables are empty and the cluster is healthy; applied: %s' % (
+                            rec['cid'], rec['thread'], rec['cid'] in pos))
                         break
         classes = set(['n=%d' % n, 'queue=%d' % case['queue']])
         for rec in records:
